@@ -8,3 +8,4 @@ ASSUMPTIONS = ["A-LIB: numpy text / npy / npz serialisation and tf.concat / tf.b
 
 from vt.contracts import iface_data  # noqa: F401,E402
 from vt.contracts import loops  # noqa: F401,E402
+from vt.contracts import data_sym  # noqa: F401,E402  (file -> particle index map on symbolic file contents)
